@@ -175,6 +175,19 @@ func (a *Scale) bitContainerScale(v ssa.Value, fn *ssa.Function) (int, bool) {
 		t = p.Elem()
 	}
 	pk := a.short(fn)
+	// text produced by a library outside the module (strconv.FormatUint, fmt.Sprintf, strings.Repeat ...) is not a
+	// bit container: its length counts characters (binary digits = bits in PathStr), not bytes of a key
+	switch x := v.(type) {
+	case *ssa.Call:
+		if cal := x.Common().StaticCallee(); cal != nil && !a.W.InModule(cal) {
+			return 0, false
+		}
+	case *ssa.BinOp, *ssa.Phi, *ssa.Const:
+		// concatenations and merges take their unit from their operands (a.same), never from their type; a literal is not a key
+		if isStringType(t) {
+			return 0, false
+		}
+	}
 	if isStringType(t) {
 		return 3, true
 	}
